@@ -94,6 +94,10 @@ func drawErrCase(rt *rapid.T) *errCase {
 		return ec
 	}
 	ec.Kind = "broken-package"
+	if strings.HasSuffix(ec.FrontEnd, "-analysis") && rapid.IntRange(0, 2).Draw(rt, "preferCommand") > 0 {
+		// the analysis drivers refuse packages with errors; the command and its twin analyse them
+		ec.FrontEnd = pickT(rt, "command", []string{"go-critic", "gocritic"})
+	}
 	ws, _ := gen.DrawWorkspace(rt, gen.WSOpts{MaxPkgs: ec.NPkgs, Tests: true, Kernels: e2eKernels()})
 	// inject 1..2 faults
 	nf := rapid.IntRange(1, 2).Draw(rt, "nfaults")
@@ -102,7 +106,7 @@ func drawErrCase(rt *rapid.T) *errCase {
 		fi := rapid.IntRange(0, len(ws.Files)-1).Draw(rt, "faultfile")
 		f := &ws.Files[fi]
 		kind := pickT(rt, "fault", []string{"delete-token", "undefined-ident", "type-mismatch", "bad-import", "unresolved-import", "mixed-package", "empty-file", "truncate", "unused-var", "dup-decl", "missing-return", "bad-call-arity",
-			"ill-typed-snippet", "ill-typed-snippet", "ill-typed-snippet", "drop-token", "drop-token"})
+			"ill-typed-snippet", "ill-typed-snippet", "ill-typed-snippet", "ill-typed-snippet", "ill-typed-snippet", "drop-token", "drop-token"})
 		faults = append(faults, kind)
 		switch kind {
 		case "delete-token":
@@ -114,9 +118,15 @@ func drawErrCase(rt *rapid.T) *errCase {
 			}
 		case "ill-typed-snippet":
 			// declarations that parse but do not type-check, in the shapes checkers index into
-			k := rapid.IntRange(0, len(illTypedSnippets)-1).Draw(rt, "snippet")
-			faults[len(faults)-1] = fmt.Sprintf("ill-typed-snippet#%d", k)
-			f.Text += "\n" + strings.ReplaceAll(illTypedSnippets[k], "§", fmt.Sprint(k)) + "\n"
+			// 3-6 distinct snippets (their names are made unique by the snippet number and the fault number)
+			perm := rapid.Permutation(seq(len(illTypedSnippets))).Draw(rt, "snippets")
+			ns := rapid.IntRange(3, 6).Draw(rt, "nsnippets")
+			label := "ill-typed-snippets"
+			for _, sn := range perm[:ns] {
+				label += fmt.Sprintf("#%d", sn)
+				f.Text += "\n" + strings.ReplaceAll(illTypedSnippets[sn], "§", fmt.Sprintf("%dx%d", sn, k)) + "\n"
+			}
+			faults[len(faults)-1] = label
 		case "drop-token":
 			// remove one identifier, literal or operator token (the file may or may not parse after it)
 			toks := tokenSpans(f.Text)
